@@ -66,6 +66,15 @@ def sessionOutcome (persist : Bool) (ps : List Piece) (t : Tail) : Option Driver
 def controlOutcome (persist : Bool) (ps : List Piece) (t : Tail) : Option Settings × Option DriverError :=
   Worker.controlRun (effective persist ps) t none
 
+/-- the runner's last step, once the reader has handed it the frame that decides (a close
+capsule, a second SETTINGS, …). `atomic = true` (`Generated.CONTROL_DECISION_ATOMIC_*`: `run`
+awaits nothing but `self.read_frame()`): the decision is returned in the same poll. `atomic =
+false`: `run` awaits something else first (say a graceful finish of the stream); that await lives
+in the future the select loop drops, so if another branch completes meanwhile the frame is
+consumed, the holder emptied, and the decision is never reported. -/
+def reported (atomic : Bool) (otherBranchDuringDecision : Bool) (o : Option DriverError) : Option DriverError :=
+  if !atomic && otherBranchDuringDecision then none else o
+
 /-- no reader is dropped while it holds progress -/
 def TearFree : List Piece → Bytes → Prop
   | [], _ => True
